@@ -463,11 +463,27 @@ Proof. exists (4 * n + 44)%nat. lia. Qed.
 Lemma empty_bytes_member6 f e rest :
   dec_var (S (S (S (S f)))) e 6 true (TVec TI8) (VBytes [])
     ((head tSIMPLE 6 ++ head tBYTE 0 ++ w_int32 (Z.of_nat (@length N [])) 0 ++ []) ++ rest) = DOk (VBytes []) rest.
-Proof. reflexivity. Qed.
+Proof.
+  (* the repaired ReadSliceInt8 compares the length (0) with the bytes left before it assigns the empty vector *)
+  assert (E : read_slice 0 rest = Some ([], rest)).
+  { unfold read_slice. change (0 <? 0)%Z with false. cbv iota.
+    destruct (Z.of_nat (length rest) <? 0)%Z eqn:E; [lia|reflexivity]. }
+  change (dec_var (S (S (S (S f)))) e 6 true (TVec TI8) (VBytes [])
+            ((head tSIMPLE 6 ++ head tBYTE 0 ++ w_int32 (Z.of_nat (@length N [])) 0 ++ []) ++ rest))
+    with (match read_slice 0 rest with None => @DErr val | Some (s, r3) => DOk (bytes_val TI8 s) r3 end).
+  now rewrite E.
+Qed.
 Lemma empty_map_member7 f e rest :
   dec_var (S (S (S (S f)))) e 7 true (TMap TStr TStr) (VMap [])
     ((head tMAP 7 ++ w_int32 (Z.of_nat (@length (val*val) [])) 0 ++ []) ++ rest) = DOk (VMap []) rest.
-Proof. reflexivity. Qed.
+Proof.
+  (* the repaired generated code compares the count (0) with half the bytes left before the loop *)
+  change (dec_var (S (S (S (S f)))) e 7 true (TMap TStr TStr) (VMap [])
+            ((head tMAP 7 ++ w_int32 (Z.of_nat (@length (val*val) [])) 0 ++ []) ++ rest))
+    with (if (0 <? 0)%Z || (Z.of_nat (length rest) / 2 <? 0)%Z then @DErr val else DOk (VMap []) rest).
+  replace ((0 <? 0)%Z || (Z.of_nat (length rest) / 2 <? 0)%Z) with false; [reflexivity|].
+  symmetry. apply orb_false_iff. split; [reflexivity|]. apply Z.ltb_ge. apply Z.div_pos; lia.
+Qed.
 
 Ltac scalar_step :=
   cbn [dec_fields ftag freq fty fdef tl];
